@@ -609,7 +609,21 @@ pub fn types() -> Vec<TypeCase> {
 
 /// generic texts every type is confronted with
 fn generic(r: &mut Rng) -> String {
-    match r.below(14) {
+    // strings whose text is echoed by type-mismatch / unknown-variant / unknown-field errors,
+    // including fragments that look like the library's own position suffixes
+    let echoed = |r: &mut Rng| -> String {
+        let mut t = rs(r);
+        if r.chance(1, 2) {
+            t.push_str(*r.pick(doc::MESSAGE_FRAGMENTS));
+        }
+        let mut g = doc::Gen::new(r, doc::DocOpts::default());
+        g.write_string(&t);
+        String::from_utf8(g.out).unwrap()
+    };
+    match r.below(17) {
+        14 => echoed(r),
+        15 => format!("[{}]", echoed(r)),
+        16 => format!("{{{}:{}}}", echoed(r), *r.pick(&["1", "null", "\"x\"", "[1]"])),
         0 => numlit::hostile(r),
         1 => String::from_utf8_lossy(&doc::gen_any(r)).into_owned(),
         2 => (*r.pick(&["null", "true", "false", "[]", "{}", "\"\"", "0", "-0", "1", "-1", "[null]", "{\"a\":null}", "[[]]", "\"a\"", " 1 ", "1 2", "", "nul", "[1,]", "{\"a\":1,}"])).to_string(),
